@@ -316,6 +316,9 @@ def py_expr(src):
 def build_env(fmt, ir, doc_text, doc_ir_json, top_json, names):
     """answers of the docstring layer / CPython to every question the model can ask on this case"""
     notes = []
+    if doc_ir_json is not None:
+        # the docstring layer may invent entries (a keyword in prose read as a marker): the model asks about those names too
+        names = list(dict.fromkeys(list(names) + [k for k, _ in doc_ir_json["params"]]))
     strings = {""}
     for _, p in list((ir.get("params") or {}).items()) + list((ir.get("returns") or {}).items()):
         if isinstance(p.get("doc"), str):
